@@ -60,6 +60,9 @@ pub enum Act {
     ByteSetRange { from: u32, to: u32 },
     /// every aligned field of `width` bytes starting in [from, to) set to each boundary value
     FieldSetRange { from: u32, to: u32, width: u8 },
+    /// every header byte in [0, 8) at its boundary values combined with every aligned 32-bit field
+    /// in [4, 24) at count-like values: sizes that are only dangerous when two fields agree
+    HeaderPairs,
     /// head of this image + tail of another image of the same family (different mode)
     Splice { other: Spec, cut: u32 },
     /// purely random buffer
@@ -696,6 +699,9 @@ impl Scenario for C14 {
         if campaigns & 4 != 0 {
             acts.push(Act::ByteSetRange { from: 0, to: l.min(48) });
         }
+        if campaigns & 4 != 0 && campaigns & 8 != 0 {
+            acts.push(Act::HeaderPairs);
+        }
         if campaigns & 8 != 0 {
             let w = *rng.pick(&[2u8, 4, 8]);
             acts.push(Act::FieldSetRange { from: 0, to: l.min(64), width: w });
@@ -835,6 +841,26 @@ impl Scenario for C14 {
                             deliver!(fam, &b, &format!("FieldSet pos {pos} width {w} val {val:#x}"), st)?;
                         }
                         pos += w;
+                    }
+                    st.nontrivial = true;
+                }
+                Act::HeaderPairs => {
+                    let counts: [u32; 14] = [0, 1, 7, 127, 255, 4095, 32767, 65535, (1 << 20) + 1, (1 << 24) + 1, (1 << 26) - 1, 1 << 28, i32::MAX as u32, u32::MAX];
+                    for bpos in 0..8usize.min(img.len()) {
+                        for bval in [1u8, 2, 3, 4, 7, 8, 10, 12, 16, 21, 26, 31, 63, 0xff] {
+                            for fpos in (4..24usize).step_by(4) {
+                                if fpos + 4 > img.len() || (fpos..fpos + 4).contains(&bpos) {
+                                    continue;
+                                }
+                                for &c in &counts {
+                                    let mut b = img.clone();
+                                    b[bpos] = bval;
+                                    b[fpos..fpos + 4].copy_from_slice(&c.to_le_bytes());
+                                    st.fault("header_pair");
+                                    deliver!(fam, &b, &format!("HeaderPair byte {bpos}={bval:#x} field {fpos}={c:#x}"), st)?;
+                                }
+                            }
+                        }
                     }
                     st.nontrivial = true;
                 }
